@@ -264,11 +264,23 @@ Proof.
   destruct (now - p_last_sent x <? RekeyTimeout); cbn [fst]; apply P; reflexivity.
 Qed.
 
+Lemma find_restart now st : forall p,
+  find_peer (map (restart_peer now) st) p =
+  match find_peer st p with Some x => Some (restart_peer now x) | None => None end.
+Proof.
+  induction st as [|y t IH]; intros p; [reflexivity|]. cbn [map find_peer restart_peer p_id].
+  destruct (p_id y =? p); [reflexivity|apply IH].
+Qed.
+
+(* a restart keeps every endpoint *)
+Lemma endpoint_restart now st p : endpoint (map (restart_peer now) st) p = endpoint st p.
+Proof. unfold endpoint. rewrite find_restart. destruct (find_peer st p); reflexivity. Qed.
+
 Theorem endpoint_after st e p :
   endpoint (fst (step st e)) p = endpoint st p \/
   exists a, moves_to st e p a /\ endpoint (fst (step st e)) p = Some a.
 Proof.
-  destruct e as [now m sid|now m sid|now src|now src|now l|now q hid|now q a hid|q d]; cbn [step].
+  destruct e as [now m sid|now m sid|now src|now src|now l|now q hid|now q a hid|q d|now]; cbn [step].
   - unfold recv_init. destruct (init_accepts st now m) as [x|] eqn:E; [|left; reflexivity]. cbn [fst].
     rewrite (endpoint_put st x) by (try reflexivity; apply (init_accepts_found st now m); exact E).
     destruct (N.eqb_spec (p_id x) p) as [I|I]; [|left; reflexivity].
@@ -293,6 +305,7 @@ Proof.
     rewrite (endpoint_put st x) by (try reflexivity; apply (found_self st q); exact F).
     cbn [shift_hs p_endpoint]. destruct (N.eqb_spec (p_id x) p) as [I|I]; [|left; reflexivity].
     left. unfold endpoint. rewrite <- I, (found_self st q x F). reflexivity.
+  - left. cbn [fst]. apply endpoint_restart.
 Qed.
 
 Theorem endpoint_changes_only_when st e p :
@@ -347,7 +360,7 @@ Proof.
   intros st p a K M Q. rewrite final_app, final_cons, (until_then_the_configured_endpoint _ _ _ Q).
   destruct (endpoint_after (final step st pre) e p) as [E|(a' & M' & E')].
   - (* a moving event writes its address even if it equals the old one *)
-    destruct e as [now m sid|now m sid|now src|now src|now l|now q hid|now q b hid|q d]; cbn [moves_to] in M; try contradiction.
+    destruct e as [now m sid|now m sid|now src|now src|now l|now q hid|now q b hid|q d|now]; cbn [moves_to] in M; try contradiction.
     + destruct M as (x & A & I & ->). rewrite <- I. apply (reply_to_new_endpoint _ now m sid x A).
     + destruct M as (x & A & I & ->). cbn [step]. unfold recv_resp. rewrite A. cbn [fst].
       rewrite (endpoint_put _ x) by (try reflexivity; apply (resp_accepts_found _ m); exact A).
@@ -359,7 +372,7 @@ Proof.
         cbn [with_ep p_id p_endpoint]. rewrite (find_id _ p x F), N.eqb_refl. reflexivity.
       * contradiction.
   - rewrite E'. f_equal.
-    destruct e as [now m sid|now m sid|now src|now src|now l|now q hid|now q b hid|q d]; cbn [moves_to] in *; try contradiction.
+    destruct e as [now m sid|now m sid|now src|now src|now l|now q hid|now q b hid|q d|now]; cbn [moves_to] in *; try contradiction.
     + destruct M as (x & A & I & ->). destruct M' as (x' & A' & I' & ->). reflexivity.
     + destruct M as (x & A & I & ->). destruct M' as (x' & A' & I' & ->). reflexivity.
     + destruct M as (_ & ->). destruct M' as (_ & ->). reflexivity.
@@ -405,7 +418,7 @@ Theorem outputs_go_to_endpoint st e :
   (forall now l, e <> EBatch now l) ->
   Forall (fun y => endpoint (fst (step st e)) (out_peer y) = Some (out_to y)) (snd (step st e)).
 Proof.
-  intros NB. destruct e as [now m sid|now m sid|now src|now src|now l|now q hid|now q a hid|q d]; cbn [step].
+  intros NB. destruct e as [now m sid|now m sid|now src|now src|now l|now q hid|now q a hid|q d|now]; cbn [step].
   - unfold recv_init. destruct (init_accepts st now m) as [x|] eqn:E; cbn [fst snd]; [|constructor].
     constructor; [|constructor]. cbn [out_peer out_to].
     rewrite (endpoint_put st x) by (try reflexivity; apply (init_accepts_found st now m); exact E).
@@ -423,4 +436,112 @@ Proof.
   - destruct (find_peer st q) as [x|] eqn:F; cbn [fst snd]; [|constructor].
     apply send_staged_outputs. cbn [with_ep p_id]. rewrite (found_self st q x F). discriminate.
   - destruct (find_peer st q); cbn [fst snd]; constructor.
+  - constructor.
+Qed.
+
+(* -------------------------- replays stay replays, across restarts as well *)
+
+Definition last_ts (st : dstate) (p : N) : N :=
+  match find_peer st p with Some x => p_last_ts x | None => 0 end.
+
+Lemma last_ts_put st x x' q :
+  find_peer st (p_id x) = Some x -> p_id x' = p_id x ->
+  last_ts (put_peer st x') q = if p_id x =? q then p_last_ts x' else last_ts st q.
+Proof.
+  intros F I. unfold last_ts. rewrite find_put, I, F. destruct (p_id x =? q); reflexivity.
+Qed.
+
+Lemma last_ts_self st p x : find_peer st p = Some x -> last_ts st (p_id x) = p_last_ts x.
+Proof. intros F. unfold last_ts. rewrite (found_self st p x F). reflexivity. Qed.
+
+Lemma put_mono st x x' q :
+  find_peer st (p_id x) = Some x -> p_id x' = p_id x -> p_last_ts x <= p_last_ts x' ->
+  last_ts st q <= last_ts (put_peer st x') q.
+Proof.
+  intros F I L. rewrite (last_ts_put st x x' q F I).
+  destruct (N.eqb_spec (p_id x) q) as [E|E]; [|lia].
+  subst q. unfold last_ts. rewrite F. exact L.
+Qed.
+
+Lemma recv_elem_mono st e q : last_ts st q <= last_ts (fst (recv_elem st e)) q.
+Proof.
+  unfold recv_elem. destruct (elem_accepts st e) as [[[x sl] s]|] eqn:E; [|cbn [fst]; lia].
+  pose proof (elem_accepts_found st e x sl s E) as F.
+  destruct sl; cbn [fst]; apply (put_mono st x); try exact F; try reflexivity; cbn [p_last_ts]; lia.
+Qed.
+
+Lemma recv_batch_mono l : forall st q, last_ts st q <= last_ts (fst (recv_batch st l)) q.
+Proof.
+  induction l as [|e t IH]; intros st q; [cbn [recv_batch fst]; lia|].
+  cbn [recv_batch]. destruct (recv_elem st e) as [st1 o1] eqn:R1.
+  destruct (recv_batch st1 t) as [st2 o2] eqn:R2. cbn [fst].
+  pose proof (recv_elem_mono st e q) as A. rewrite R1 in A. cbn [fst] in A.
+  pose proof (IH st1 q) as B. rewrite R2 in B. cbn [fst] in B. lia.
+Qed.
+
+Lemma send_staged_mono st now x hid q :
+  find_peer st (p_id x) <> None ->
+  (forall y, find_peer st (p_id x) = Some y -> p_last_ts y <= p_last_ts x) ->
+  last_ts st q <= last_ts (fst (send_staged st now x hid)) q.
+Proof.
+  intros F L. destruct (find_peer st (p_id x)) as [y|] eqn:Fy; [|contradiction].
+  pose proof (found_self st (p_id x) y Fy) as Fy'. pose proof (find_id st (p_id x) y Fy) as Iy.
+  assert (P : forall x', p_id x' = p_id x -> p_last_ts x' = p_last_ts x ->
+              last_ts st q <= last_ts (put_peer st x') q).
+  { intros x' I E. apply (put_mono st y); [exact Fy'|congruence|]. rewrite E. apply L. reflexivity. }
+  unfold send_staged. destruct (p_staged x =? 0); cbn [fst]; [apply P; reflexivity|].
+  destruct (p_cur x); cbn [fst]; [apply P; reflexivity|].
+  destruct (now - p_last_sent x <? RekeyTimeout); cbn [fst]; apply P; reflexivity.
+Qed.
+
+(* the greatest consumed timestamp of a peer never decreases, whatever happens — restarts included *)
+Theorem last_timestamp_monotone st e q : last_ts st q <= last_ts (fst (step st e)) q.
+Proof.
+  destruct e as [now m sid|now m sid|now src|now src|now l|now p hid|now p a hid|p d|now]; cbn [step].
+  - unfold recv_init. destruct (init_accepts st now m) as [x|] eqn:E; cbn [fst]; [|lia].
+    apply (put_mono st x); [apply (init_accepts_found st now m); exact E|reflexivity|].
+    cbn [p_last_ts]. apply init_accepts_iff in E. lia.
+  - unfold recv_resp. destruct (resp_accepts st m) as [x|] eqn:E; cbn [fst]; [|lia].
+    apply (put_mono st x); [apply (resp_accepts_found st m); exact E|reflexivity|]. cbn [p_last_ts]. lia.
+  - cbn [fst]. lia.
+  - cbn [fst]. lia.
+  - apply recv_batch_mono.
+  - destruct (find_peer st p) as [x|] eqn:F; cbn [fst]; [|lia].
+    apply send_staged_mono; cbn [with_staged p_id p_last_ts]; rewrite (found_self st p x F); [discriminate|].
+    intros y Hy. inversion Hy. lia.
+  - destruct (find_peer st p) as [x|] eqn:F; cbn [fst]; [|lia].
+    apply send_staged_mono; cbn [with_ep p_id p_last_ts]; rewrite (found_self st p x F); [discriminate|].
+    intros y Hy. inversion Hy. lia.
+  - destruct (find_peer st p) as [x|] eqn:F; cbn [fst]; [|lia].
+    apply (put_mono st x); [apply (found_self st p); exact F|reflexivity|]. cbn [shift_hs p_last_ts]. lia.
+  - cbn [fst]. unfold last_ts. rewrite find_restart. destruct (find_peer st q); cbn [restart_peer p_last_ts]; lia.
+Qed.
+
+Lemma final_last_ts evs : forall st q, last_ts st q <= last_ts (final step st evs) q.
+Proof.
+  induction evs as [|e t IH]; intros st q; [cbn; lia|].
+  rewrite final_cons. pose proof (last_timestamp_monotone st e q). pose proof (IH (fst (step st e)) q). lia.
+Qed.
+
+(* An initiation that was consumed once — and any initiation of that peer with the same or an
+   older timestamp — is never accepted again, after any history (restarts, new sessions, shifted
+   handshake times, other traffic) and from any source: it changes nothing and moves nothing. *)
+Theorem replayed_initiation_never_accepted st now m sid x mid now2 m2 sid2 :
+  init_accepts st now m = Some x ->
+  i_static m2 = i_static m -> i_ts m2 <= i_ts m ->
+  let st2 := final step (fst (step st (EInit now m sid))) mid in
+  step st2 (EInit now2 m2 sid2) = (st2, []).
+Proof.
+  intros A S T st2. apply rejected_initiation_inert.
+  pose proof (init_accepts_found st now m x A) as F.
+  pose proof (proj1 (init_accepts_iff st now m x) A) as (_ & (p & Sp & Fp) & _ & _ & _).
+  pose proof (find_id st p x Fp) as I.
+  assert (L : i_ts m <= last_ts st2 p).
+  { unfold st2. eapply N.le_trans; [|apply final_last_ts].
+    cbn [step]. unfold recv_init. rewrite A. cbn [fst].
+    rewrite (last_ts_put st x) by (try reflexivity; exact F).
+    rewrite I, N.eqb_refl. cbn [p_last_ts]. lia. }
+  destruct (init_accepts st2 now2 m2) as [y|] eqn:E; [|reflexivity]. exfalso.
+  apply init_accepts_iff in E. destruct E as (_ & (p' & Sp' & Fp') & _ & Ts & _).
+  rewrite S, Sp in Sp'. inversion Sp'; subst p'. unfold last_ts in L. rewrite Fp' in L. lia.
 Qed.
